@@ -129,6 +129,10 @@ func runSeek(r *core.Run) {
 			}
 		}
 		if posAtom == "" || lenAtom == "" {
+			// the work may be split over helper methods (seekTarget / inside / seekTo)
+			if seekThroughHelpers(r, fn) {
+				continue
+			}
 			r.Unknown(recvName(fn)+".Seek roles", fn.Pos(), "cannot identify the position field and the total-length call of this Seek method")
 			continue
 		}
@@ -218,6 +222,120 @@ func runSeek(r *core.Run) {
 		}
 	}
 	r.Floor("Seek methods", seen, 1)
+}
+
+// seekThroughHelpers decides R-SEEK for a Seek whose store sits in a helper that receives (target, inside) computed
+// by another helper: every case of the helper that computes the pair is judged with the facts of that case.
+// Returns false if the shape is not of this kind (the caller then reports undecided).
+func seekThroughHelpers(r *core.Run, fn *ssa.Function) bool {
+	posF, _ := binaryReaderRoles(r)
+	if posF == "" || recvName(fn) != "BinaryReader" {
+		return false
+	}
+	recv := fn.Params[0].Name()
+	off, wh := fn.Params[1].Name(), fn.Params[2].Name()
+	unit := methodUnit(fn)
+	var stores []unitSite
+	lenAtom := ""
+	for _, u := range unit {
+		if st, ok := u.in.(*ssa.Store); ok {
+			if fa, isFA := st.Addr.(*ssa.FieldAddr); isFA && fieldName(fa.X.Type(), fa.Field) == posF && recvNameOfType(fa.X.Type()) == "BinaryReader" {
+				stores = append(stores, u)
+			}
+		}
+		if c, ok := u.in.(*ssa.Call); ok && c.Call.IsInvoke() && c.Call.Method.Name() == "Len" && len(c.Call.Args) == 0 {
+			a := canon(c.Call.Value) + ".Len()"
+			if i := strings.Index(a, "."); i > 0 {
+				lenAtom = recv + a[i:]
+			}
+		}
+	}
+	if len(stores) != 1 || lenAtom == "" {
+		return false
+	}
+	st := stores[0].in.(*ssa.Store)
+	// the stored value and the flag that guards the store, expressed in Seek's frame
+	tv, n1 := valueThrough(st.Val, stores[0].chain)
+	tex, ok := tv.(*ssa.Extract)
+	if !ok || n1 != 0 {
+		return false
+	}
+	pair, ok := tex.Tuple.(*ssa.Call)
+	if !ok {
+		return false
+	}
+	h := pair.Call.StaticCallee()
+	if h == nil || len(h.Blocks) == 0 {
+		return false
+	}
+	flagIdx := -1
+	for v, truth := range boolKnown(st.Block(), nil) {
+		if !truth {
+			continue
+		}
+		fv, n2 := valueThrough(v, stores[0].chain)
+		if fex, isEx := fv.(*ssa.Extract); isEx && n2 == 0 && fex.Tuple == ssa.Value(pair) {
+			flagIdx = fex.Index
+		}
+	}
+	if flagIdx < 0 {
+		return false
+	}
+	posAtom := recv + "." + posF
+	want := map[int64]Lin{
+		0: linAtom(off),
+		1: linAtom(posAtom).add(linAtom(off), 1),
+		2: linAtom(lenAtom).add(linAtom(off), 1),
+	}
+	found := map[int64]bool{}
+	toSeek := func(l Lin) (Lin, bool) { return substParams(l, h, pair.Call.Args) }
+	for _, b := range h.Blocks {
+		ret, isRet := lastInstr(b).(*ssa.Return)
+		if !isRet || tex.Index >= len(ret.Results) || flagIdx >= len(ret.Results) {
+			continue
+		}
+		if k, isK := ret.Results[flagIdx].(*ssa.Const); isK && k.Value != nil && k.Value.String() == "false" {
+			continue // a case that never stores
+		}
+		var fs []Fact
+		for _, f := range blockFacts(b) {
+			if l, okL := toSeek(f.L); okL {
+				fs = append(fs, Fact{L: l, NE: f.NE})
+			}
+		}
+		for _, a := range condAtoms(ret.Results[flagIdx], true, 0) {
+			for _, f := range factsOfAtom(a) {
+				if l, okL := toSeek(f.L); okL {
+					fs = append(fs, Fact{L: l, NE: f.NE})
+				}
+			}
+		}
+		fs = strengthen(fs)
+		k, pinnedOK := pinned(fs, wh)
+		name := recvName(fn)
+		if !pinnedOK {
+			r.Unknown(name+".Seek store to pos", ret.Pos(), "a (target, inside) pair is not computed under a `whence == k` branch")
+			continue
+		}
+		found[k] = true
+		key := fmt.Sprintf("%s.Seek whence=%d", name, k)
+		w, known := want[k]
+		if !known {
+			r.Fail(key+" target", ret.Pos(), fmt.Sprintf("io.Seeker defines whence 0,1,2 only; a target is computed under whence == %d", k))
+			continue
+		}
+		target, okT := toSeek(linOf(ret.Results[tex.Index]))
+		r.Check(okT && target.equal(w), key+" target", ret.Pos(), "pos = "+target.String(),
+			fmt.Sprintf("new position is `%s`; io.Seeker requires `%s` for whence %d", target, w, k))
+		lo := entails(fs, target)
+		hi := entails(fs, linAtom(lenAtom).add(target, -1))
+		r.Check(lo && hi, key+" range", ret.Pos(), "0 <= target <= Len() entailed by the guards",
+			fmt.Sprintf("the guards %v do not imply 0 <= %s <= %s: a target outside the data is accepted (or the accepted range is not the one the assignment uses)", factStrings(fs), target, lenAtom))
+	}
+	for k := int64(0); k <= 2; k++ {
+		r.Check(found[k], fmt.Sprintf("%s.Seek handles whence=%d", recvName(fn), k), fn.Pos(), "", fmt.Sprintf("no assignment to pos under whence == %d", k))
+	}
+	return true
 }
 
 // -------------------------------------------------------------- R-EOFSTRICT
